@@ -465,6 +465,24 @@ theorem fd_quadratic_exact {K : Type} [Field K] [NeZero (2:K)] (n : â„•) (P : â„
   ring
 
 
+/-! ### the FD configuration over call histories (`enable_FD` / `disable_FD` in any order) -/
+
+/-- **After `disable_FD()` the closed form is used again, whatever happened before**: for every
+    history of `enable_FD(Îµ)` / `disable_FD()` calls ending in `disable_FD()`, `gradient` is in the
+    closed-form mode (no spacing survives). -/
+theorem fd_disable_restores_closed (c : FDCfg) (ops : List FDOp) :
+    fdMode (fdRun c (ops ++ [.disable])) = none := by
+  simp [fdRun, List.foldl_append, fdApply, fdMode]
+
+/-- **The mode is decided by the last call alone**: after a history ending in `enable_FD(Îµ)` the
+    forward difference with exactly that spacing (1e-8 when called without argument) is used. -/
+theorem fd_last_enable_wins (c : FDCfg) (ops : List FDOp) (e : Option â„š) :
+    fdMode (fdRun c (ops ++ [.enable e])) = some (e.getD fdDefaultEps) := by
+  cases e <;> simp [fdRun, List.foldl_append, fdApply, fdMode]
+
+/-- a fresh density uses the closed form -/
+theorem fd_init_closed : fdMode FDCfg.init = none := rfl
+
 /-! ## 7. the decision table (`gradStatus`, transcribed from the guards)
 
 Complete finite tables: every statement below is checked on all rows by `decide`. -/
